@@ -141,7 +141,46 @@ type vIdP struct {
 	onJWKS     func() (int, string, string, error)
 	hook       func(path string) // scheduler hook (C12)
 	ctxHook    func(ctx context.Context, path string)
+	// any other path of the provider (validate, profile endpoints of the non-OIDC providers)
+	onPath map[string]func(req *http.Request) (int, string, string, error)
 }
+
+// vBodyFault, returned as the error of an endpoint behaviour, makes the response arrive with its status and
+// headers (and a Content-Length announcing the whole body) but lets reading the body fail after n bytes:
+// a connection reset in the middle of the transfer.
+type vBodyFault struct {
+	n int
+}
+
+func (f vBodyFault) Error() string { return "verif: body fault" }
+
+type vFaultyBody struct {
+	data []byte
+	n    int
+}
+
+func (b *vFaultyBody) Read(p []byte) (int, error) {
+	if b.n <= 0 {
+		return 0, fmt.Errorf("read tcp: connection reset by peer")
+	}
+	k := len(p)
+	if k > b.n {
+		k = b.n
+	}
+	if k > len(b.data) {
+		k = len(b.data)
+	}
+	copy(p, b.data[:k])
+	b.data = b.data[k:]
+	b.n -= k
+	if k == 0 {
+		return 0, fmt.Errorf("read tcp: connection reset by peer")
+	}
+	return k, nil
+}
+func (b *vFaultyBody) Close() error { return nil }
+
+const vIssuer2 = "https://idp2.example"
 
 func (i *vIdP) record(c vIdPCall) {
 	i.mu.Lock()
@@ -178,6 +217,17 @@ func vResp(req *http.Request, status int, ctype, body string) *http.Response {
 }
 
 func (i *vIdP) RoundTrip(req *http.Request) (*http.Response, error) {
+	if req.URL.Host == "idp2.example" {
+		// a second issuer (extra JWT issuers): discovery and keys only
+		switch req.URL.Path {
+		case "/.well-known/openid-configuration":
+			return vResp(req, 200, "application/json", `{"issuer":"`+vIssuer2+`","authorization_endpoint":"`+vIssuer2+`/authorize","token_endpoint":"`+vIssuer2+
+				`/token","jwks_uri":"`+vIssuer2+`/jwks","id_token_signing_alg_values_supported":["RS256","ES256"]}`), nil
+		case "/jwks":
+			return vResp(req, 200, "application/json", vJWKS()), nil
+		}
+		return vResp(req, 404, "text/plain", "not found"), nil
+	}
 	if req.URL.Host != "idp.example" {
 		return nil, fmt.Errorf("verif: no route to host %s", req.URL.Host)
 	}
@@ -228,9 +278,19 @@ func (i *vIdP) RoundTrip(req *http.Request) (*http.Response, error) {
 			st, ct, body = 404, "text/plain", "no userinfo"
 		}
 	default:
-		st, ct, body = 404, "text/plain", "not found"
+		if h := i.onPath[req.URL.Path]; h != nil {
+			st, ct, body, err = h(req)
+			defaulted = false
+		} else {
+			st, ct, body = 404, "text/plain", "not found"
+		}
 	}
 	_ = defaulted
+	if bf, ok := err.(vBodyFault); ok {
+		resp := vResp(req, st, ct, body)
+		resp.Body = &vFaultyBody{data: []byte(body), n: bf.n}
+		return resp, nil
+	}
 	if err != nil {
 		return nil, err
 	}
@@ -241,6 +301,7 @@ var vTheIdP = &vIdP{}
 
 func vInstallIdP() *vIdP {
 	vKeys()
+	vTheIdP.onPath = map[string]func(req *http.Request) (int, string, string, error){}
 	requests.DefaultHTTPClient = &http.Client{Transport: vTheIdP, Timeout: 5 * time.Second}
 	http.DefaultClient = &http.Client{Transport: vTheIdP, Timeout: 5 * time.Second}
 	return vTheIdP
@@ -573,6 +634,7 @@ type vEnvCfg struct {
 	post  func(*vEnv) // after construction
 	optional bool     // validation failure is not fatal
 	keepUpstream bool // keep the real upstream proxy (C17) instead of the recording handler
+	extraJWT bool     // skip-jwt-bearer-tokens with a second issuer (extra-jwt-issuers): bearer tokens of idp2.example
 }
 
 var vTmpDir string
@@ -628,6 +690,10 @@ func vNewEnv(t *testing.T, c vEnvCfg) *vEnv {
 	o.UpstreamServers = options.UpstreamConfig{Upstreams: []options.Upstream{{ID: "static", Path: "/", Static: true}}}
 	if c.oidc {
 		vOIDCOptions(o)
+	}
+	if c.extraJWT {
+		o.SkipJwtBearerTokens = true
+		o.ExtraJwtIssuers = []string{vIssuer2 + "=" + clientID}
 	}
 	if c.mod != nil {
 		c.mod(o)
@@ -938,3 +1004,17 @@ func (r *vRedis) lockHeld(lockKey string) bool {
 }
 
 func newSafeRecorder() *httptest.ResponseRecorder { return httptest.NewRecorder() }
+
+
+// vClaims2: a valid claim set of the second issuer (accepted only through the extra-jwt-issuers loader).
+func vClaims2(email string, extra map[string]interface{}) map[string]interface{} {
+	c := vClaims(email, map[string]interface{}{"iss": vIssuer2})
+	for k, v := range extra {
+		if v == nil {
+			delete(c, k)
+		} else {
+			c[k] = v
+		}
+	}
+	return c
+}
